@@ -167,7 +167,15 @@ func RecvOn(stack porttypes.IBCModule, ctx sdk.Context, p Pkt) (res RecvResult) 
 	return res
 }
 
-func (w *World) Recv(ctx sdk.Context, p Pkt) RecvResult { return RecvOn(w.Stack, ctx, p) }
+// Recv delivers on the application's own stack — or, for worlds switched to the instrumented stand
+// (UseInstr), on the harness-built replica with decorated dependencies.
+func (w *World) Recv(ctx sdk.Context, p Pkt) RecvResult {
+	if w.UseInstr != nil {
+		w.UseInstr.Rec.Reset(nil, "")
+		return RecvOn(w.UseInstr.Stack, ctx, p)
+	}
+	return RecvOn(w.Stack, ctx, p)
+}
 
 // ---------------------------------------------------------------------------------------------
 // Msg with baseapp's per-message envelope (runTx: cache the multistore, write only on success).
